@@ -33,6 +33,8 @@ CONFIGS: Dict[str, Dict[str, Any]] = {
     "rom+rom-overlay": {"rom": True, "rom_overlay": [0x20008, [1, 2, 3, 4, 5, 6, 7, 8]]},
     "bare+mirror-off": {"mirror": False},
     "rom+readonly": {"rom": True, "readonly": [0x0C0000, 0x0FFFFF]},
+    # a read-only range inside the internal RAM with the RAM mirror on: the mirror aliases of its cells lie outside the range
+    "mirror+readonly-ram": {"readonly": [0x0B8000, 0x0B80FF]},
     # a ROM image shorter than the fixed ROM window (load_rom of 4 KiB): the rest of the window is unbacked but still read-only
     # (the last 256 bytes of the window get their own ROM overlay, as in every full-ROM configuration, so that the recorded
     #  finding about internal memory living in the top of the external array does not show through the unbacked part)
